@@ -54,6 +54,7 @@ var c09Alphabet = []string{"Pc", "Ps", "Pb", "H", "UL3", "ULn", "BQ", "PRE", "TB
 var c09TextOnly = []string{"Pc", "Pc2", "Ps", "Pb", "UL3", "ULn", "BQ", "PRE", "INL", "JS2", "BR", "HIDs", "PUN", "DIVt", "TBLl", "SIDE", "TXT", "FALLBt"}
 
 func c09Enumerate(tier string, emit func(*eng.Case)) {
+	own := withDecor(decorEvery(tier), emit)
 	atoms := c09Atoms
 	alpha := ora.AtomIndex(atoms, c09Alphabet...)
 	starts := ora.StdSkeletons(atoms)
@@ -63,7 +64,7 @@ func c09Enumerate(tier string, emit func(*eng.Case)) {
 	}
 	for _, url := range []string{"", "http://example.com/a/b/story.html"} {
 		ora.EnumDocs(starts, alpha, maxE, func(d *ora.DocModel, edits int) {
-			emit(caseFromModel("views", d, atoms, url))
+			own(caseFromModel("views", d, atoms, url))
 		})
 	}
 	// word-count clause: no <title>, no tables/figures/images
@@ -71,7 +72,7 @@ func c09Enumerate(tier string, emit func(*eng.Case)) {
 	ora.EnumDocs(starts, alphaT, maxE, func(d *ora.DocModel, edits int) {
 		c := caseFromModel("wordcount", d, atoms, "")
 		c.HTML = strings.Replace(c.HTML, "<title>"+ora.DefaultTitle+"</title>", "", 1)
-		emit(c)
+		own(c)
 	})
 	crossEmit("C09", tier, "views", 1, emit)
 }
@@ -160,7 +161,7 @@ func init() {
 			if tier == "thorough" {
 				e = 3
 			}
-			return map[string]any{"max_edits_views": e, "max_edits_wordcount": e, "atoms": len(c09Alphabet), "atoms_textonly": len(c09TextOnly), "cross": crossBounds(tier)}
+			return map[string]any{"decorated_variants": decorBound(tier), "max_edits_views": e, "max_edits_wordcount": e, "atoms": len(c09Alphabet), "atoms_textonly": len(c09TextOnly), "cross": crossBounds(tier)}
 		},
 	})
 }
